@@ -339,8 +339,13 @@ def _roundtrip(ctx, io, err, case, schema, data, tf, path):
     import hashlib
 
     names = [f["name"] for f in schema["fields"]]
+    kw = {}
+    cseed = int(case.get("seed", case.get("k", 0)))
+    if cseed % 3 == 1:   # optional header comments (single lines) must not disturb schema or data
+        pool = ["Data from Fig. 5", "---", "schema:", "delimiter: ';'", "#hash", "unit: m/s", "é✓ — ok", "", "  fields:", "- name: x", "'quoted'", "a: b: c"]
+        kw["comments"] = [pool[(cseed // 3 + j) % len(pool)] for j in range(1 + cseed % 4)]
     try:
-        io.save_scsv(path, schema, data)
+        io.save_scsv(path, schema, data, **kw)
         with open(path, "rb") as f:
             raw = f.read()
         out = io.read_scsv(path)
